@@ -18,8 +18,8 @@ From C15 Require Export Model Spec.
 Record ctl := mkctl {
   c_str : text; c_pos : nat; c_end : nat;
   c_out : text; c_args : list value; c_apos : Z; c_stop : bool;
-  (* bookkeeping that is not in the Go struct *)
-  c_pre : text;      (* what was written before this control's own buffer: S judges columns on pre ++ out *)
+  (* c_pre: the output of the enclosing controls (c.parent ... since repo_fixes/C15-19); c_taint: bookkeeping that is not in the Go struct *)
+  c_pre : text;      (* what was written before this control's own buffer: columns and fresh lines are judged on pre ++ out *)
   c_taint : bool     (* some consulted site gave different outcomes for M and S *)
 }.
 Definition set_pos (c : ctl) (p : nat) : ctl :=
@@ -81,12 +81,6 @@ Inductive rd := RdDir (ch : ascii) (colon at_ : bool) (ps : list param) (c : ctl
               | RdErr (t : bool) | RdFuel | RdUnsup.
 Definition is_dir_char (b : ascii) : bool :=
   existsb (ascii_eqb b) (nl :: tx "$%&(*/<=?AaBbCcDdEeFfGgIiOoPpRrSsTtWwXx[{|^~").
-Definition rchar_eqb (x y : rchar * nat) : bool :=
-  match fst x, fst y with
-  | RChar a, RChar b => ascii_eqb a b && Nat.eqb (snd x) (snd y)
-  | RCharErr, RCharErr => true
-  | _, _ => false
-  end.
 
 (* the end of a number that starts at pos - 1: the digits from pos on *)
 Fixpoint num_end (fuel : nat) (s : text) (pos cend : nat) : nat :=
@@ -117,28 +111,19 @@ Fixpoint read_dir (fuel : nat) (c : ctl) (colon at_ : bool) (ps : list param) : 
         else let prev := ch_at (c_str c) (c_pos c - 1) in            (* c.str[c.pos-2] after c.pos++ *)
              read_dir f c1 colon at_ (if ascii_eqb prev "~" || ascii_eqb prev "," then ps ++ [PNone] else ps)
       else if ascii_eqb ch "#" then read_dir f c1 colon at_ (ps ++ [PInt (nargs c - c_apos c)])
-      else if ascii_eqb ch "v" || (ascii_eqb ch "V" && negb b) then
-        (* site: V is v by the definition; the Go switch only knows the lower-case letter *)
-        let c1 := add_taint c1 (ascii_eqb ch "V") in
+      else if ascii_eqb ch "v" || ascii_eqb ch "V" then
         if (0 <=? c_apos c)%Z
         then match arg_at c with
              | Some v => read_dir f (set_apos c1 (c_apos c + 1)) colon at_ (ps ++ [PVal v])
              | None => RdErr (c_taint c1)                              (* missing argument *)
              end
         else read_dir f c1 colon at_ (ps ++ [PNone])
-      else if ascii_eqb ch "V" then RdErr true                         (* invalid directive *)
       else if ascii_eqb ch "'" then
-        (* site: the Go code reads up to the next byte of the scan map and hands that to ReadCharacter;
-           the definition is: the single character after the quote *)
-        let p := go_read_param T (c_end c) (c_str c) (c_pos c1) (c_end c) in
-        let i := (go_read_character (sub (c_str c) (c_pos c1) p), p) in
-        let s := if Nat.ltb (c_pos c1) (c_end c) then (RChar (ch_at (c_str c) (c_pos c1)), S (c_pos c1)) else (RCharErr, c_pos c1) in
-        let t := negb (rchar_eqb i s) in
-        match pick i s with
-        | (RChar a, p') => read_dir f (add_taint (set_pos c1 p') t) colon at_ (ps ++ [PChr a])
-        | (RCharErr, _) => RdErr (c_taint c || t)
-        | (RCharUnsup, _) => RdUnsup
-        end
+        (* the single character after the quote, whatever it is (utf8.DecodeRune; the universe is ASCII);
+           nothing after the quote: invalid directive *)
+        if Nat.ltb (c_pos c1) (c_end c)
+        then read_dir f (set_pos c1 (S (c_pos c1))) colon at_ (ps ++ [PChr (ch_at (c_str c) (c_pos c1))])
+        else RdErr (c_taint c)
       else if ascii_eqb ch "-" || is_digit ch then
         (* site: c.pos-- ; readParam reads up to the next byte of the scan map; the definition: an optional
            sign and the digits that follow *)
@@ -179,7 +164,7 @@ Definition dir_repeat (t : text) (ps : list param) (c : ctl) : pres :=
 Definition dir_amp (ps : list param) (c : ctl) : pres :=
   match fst (first_int ps 1) with
   | GOk n =>
-      let i := go_fresh n (c_out c) in
+      let i := go_fresh n (c_pre c ++ c_out c) in      (* c.lastByte(): the enclosing controls included *)
       let s := std_fresh n (c_pre c ++ c_out c) in
       Ok (emit_n (add_taint c (negb (Nat.eqb i s))) [nl] (pick i s), false)
   | GErr => err c
@@ -193,10 +178,9 @@ Definition dir_move (colon at_ : bool) (ps : list param) (c : ctl) : pres :=
       else let np := if colon then (c_apos c - n)%Z
                      else if at_ then (if changed then n else 0%Z)
                      else (c_apos c + n)%Z in
-           (* site: the Go code does not check the new position; the definition makes leaving 0..len an error *)
+           (* leaving 0..len is an error: "move directive leaves the argument list" *)
            let inside := (0 <=? np)%Z && (np <=? nargs c)%Z in
-           if inside then Ok (set_apos c np, false)
-           else if b then Ok (add_taint (set_apos c np) true, false) else terr c
+           if inside then Ok (set_apos c np, false) else err c
   | (GErr, _) => err c
   | (GUnsup, _) => Unsup
   end.
@@ -228,11 +212,8 @@ Fixpoint pad_loop (fuel : nat) (len mincol colinc : nat) (padchar pad : text) : 
 Definition dir_as (esc colon at_ : bool) (ps : list param) (c : ctl) : pres :=
   match take_arg c with
   | Ok (v, c) =>
-      (* site: with : nil is written (); the Go code only recognises its own nil, not an empty list object *)
-      let ti := match v with VNil => if colon then tx "()" else print esc VNil | v => print esc v end in
-      let ts := if is_empty v && colon then tx "()" else print esc v in
-      let out := pick ti ts in
-      let c := add_taint c (negb (text_eqb ti ts)) in
+      (* with : nil is written (); an empty list object is nil *)
+      let out := if is_empty v && colon then tx "()" else print esc v in
       match get_int 0 ps 0 true, get_int 1 ps 1 true, get_int 2 ps 0 true, get_chr 3 ps [sp] with
       | GOk mincol, GOk colinc, GOk minpad, Some padchar =>
           if (colinc <? 1)%Z then err c else          (* colinc directive parameter must be positive *)
@@ -272,7 +253,6 @@ Definition opt_text_eqb (x y : option text) : bool :=
   match x, y with Some a, Some b => text_eqb a b | None, None => true | _, _ => false end.
 Definition dir_radix (colon at_ : bool) (ps : list param) (c : ctl) : pres :=
   let go_words (c : ctl) : pres :=
-    (* the Go code: the prefix parameters are never looked at *)
     if (nargs c <=? c_apos c)%Z then err c
     else match arg_at c with
          | Some (VInt z) =>
@@ -289,30 +269,19 @@ Definition dir_radix (colon at_ : bool) (ps : list param) (c : ctl) : pres :=
   match ps with
   | [] => go_words c
   | _ =>
-      (* site: with prefix parameters the definition is ~radix,mincol,padchar,commachar,comma-intervalR *)
-      if b then (match go_words c with
-                 | Ok (c', a) => Ok (add_taint c' true, a)
-                 | Err _ => Err true
-                 | r => r
-                 end)
-      else match get_int 0 ps 10 true with
-           | GOk r => if ((2 <=? r) && (r <=? 36))%Z
-                      then (match dir_int (Z.to_N r) 1 colon at_ ps c with
-                            | Ok (c', a) => Ok (add_taint c' true, a)
-                            | Err _ => Err true
-                            | r => r
-                            end)
-                      else terr c
-           | GErr => terr c
-           | GUnsup => Unsup
-           end
+      (* with prefix parameters: ~radix,mincol,padchar,commachar,comma-intervalR is dirInt in that radix over params[1:] *)
+      match get_int 0 ps 10 true with
+      | GOk r => if ((2 <=? r) && (r <=? 36))%Z then dir_int (Z.to_N r) 1 colon at_ ps c else err c
+      | GErr => err c
+      | GUnsup => Unsup
+      end
   end.
 (* ~T (dirT); site: the number of spaces *)
 Definition dir_tab (colon at_ : bool) (ps : list param) (c : ctl) : pres :=
   match get_int 0 ps 0 true, get_int 1 ps 1 true with
   | GOk colnum, GOk colinc =>
       let given (i : nat) := match nth_error ps i with Some (PInt _) | Some (PVal (VInt _)) => true | _ => false end in
-      let i := go_tab at_ (Z.to_nat colnum) (Z.to_nat colinc) (c_out c) in
+      let i := go_tab at_ (Z.to_nat colnum) (Z.to_nat colinc) (c_pre c ++ c_out c) in     (* c.column() *)
       (* the definition: both parameters default to 1; the column is the one of the whole output *)
       let cn := if given 0%nat then Z.to_nat colnum else 1%nat in
       let cur := column (c_pre c ++ c_out c) in
@@ -348,8 +317,8 @@ Definition block_extent (c : ctl) (opn cls : ascii) (iter : bool) : res (nat * b
   | gs =>
       let i := match gs with
                | ScanAt p =>
-                   (* dirIter: c.pos = pos + 2 ; if c.pos < len(c.str) && c.str[c.pos] == '}' { c.pos++ ; atLeastOnce = true } *)
-                   if iter && Nat.ltb (p + 2) (List.length (c_str c)) && ascii_eqb (ch_at (c_str c) (p + 2)) cls
+                   (* dirIter: c.pos = pos + 2 ; if c.str[pos+1] == ':' { c.pos++ ; atLeastOnce = true } *)
+                   if iter && ascii_eqb (ch_at (c_str c) (p + 1)) ":"
                    then Some (p, true, p + 3) else Some (p, false, p + 2)
                | _ => None
                end in
@@ -435,21 +404,16 @@ Definition dir_cond (rec : ctl -> pres) (colon at_ : bool) (ps : list param) (c 
         else if colon then
           if negb (Nat.eqb (List.length strs) 2) || Nat.ltb 0 (List.length def) then err c
           else match arg with
-               | Some VNil => with_pos next (sub_process rec c (tnth strs 0))
-               | Some (VList []) => (* site: an empty list object is not the Go nil, so the Go code takes it for true *)
-                                    with_pos next (sub_process rec (add_taint c true) (tnth strs (pick 1%nat 0%nat)))
+               | Some VNil | Some (VList []) => with_pos next (sub_process rec c (tnth strs 0))   (* an empty list object is nil *)
                | Some _ => with_pos next (sub_process rec c (tnth strs 1))
-               | None => (* site: no argument left: the Go code goes on with nil *)
-                         if b then with_pos next (sub_process rec (add_taint c true) (tnth strs 0)) else terr c
+               | None => err c                                             (* needArg: no argument left *)
                end
         else if at_ then
           if negb (Nat.eqb (List.length strs) 1) || Nat.ltb 0 (List.length def) then err c
           else match arg with
-               | Some VNil => Ok (set_pos c next, false)
-               | Some (VList []) => if b then with_pos next (sub_process rec (add_taint (set_apos c (c_apos c - 1)) true) (tnth strs 0))
-                                    else Ok (set_pos (add_taint c true) next, false)
+               | Some VNil | Some (VList []) => Ok (set_pos c next, false)
                | Some _ => with_pos next (sub_process rec (set_apos c (c_apos c - 1)) (tnth strs 0))
-               | None => if b then Ok (set_pos (add_taint c true) next, false) else terr c
+               | None => err c
                end
         else
           (* the clause number: the prefix parameter, else a fixnum argument *)
@@ -460,9 +424,8 @@ Definition dir_cond (rec : ctl -> pres) (colon at_ : bool) (ps : list param) (c 
           if (n <? 0)%Z then
             match arg with
             | Some (VInt z) =>
-                if is_fixnum z then sel z c
-                else (* site: a bignum is refused by the Go code; by the definition it selects no clause *)
-                     if b then terr c else sel z (add_taint c true)
+                (* a fixnum is the clause number; a bignum selects no clause: n = len(strs) *)
+                if is_fixnum z then sel z c else sel (Z.of_nat (List.length strs)) c
             | _ => err c
             end
           else sel n c
@@ -473,11 +436,11 @@ Definition dir_cond (rec : ctl -> pres) (colon at_ : bool) (ps : list param) (c 
 (* ~? (dirProc) *)
 Definition dir_proc (rec : ctl -> pres) (at_ : bool) (c : ctl) : pres :=
   if (c_apos c <? 0)%Z then err c else
-  (* the control string; site: none left -> the Go code uses an empty one *)
+  (* the control string; none left: needArg *)
   match (match arg_at c with
          | Some (VStr s) => Ok (s, set_apos c (c_apos c + 1))
          | Some _ => err c
-         | None => if b then Ok ([], add_taint c true) else terr c
+         | None => err c
          end) with
   | Ok (ctrl, c) =>
       if at_ then
@@ -488,10 +451,9 @@ Definition dir_proc (rec : ctl -> pres) (at_ : bool) (c : ctl) : pres :=
       else
         match (match arg_at c with
                | Some (VList l) => Ok (l, c)
-               | Some VNil => (* site: the Go type assertion to slip.List fails for nil; () is a list *)
-                              if b then terr c else Ok ([], add_taint c true)
+               | Some VNil => Ok ([], c)                                  (* nil is the empty list *)
                | Some _ => err c
-               | None => if b then Ok ([], add_taint c true) else terr c
+               | None => err c
                end) with
         | Ok (args, c) =>
             match rec (fresh c ctrl args 0) with
@@ -585,8 +547,7 @@ Definition dir_iter (fuel : nat) (rec : ctl -> pres) (colon at_ : bool) (ps : li
           if (c_apos c <? 0)%Z then err c else
           match (match arg_at c with
                  | Some v => (match as_list v with Some l => Ok (l, set_apos c (c_apos c + 1)) | None => err c end)
-                 | None => (* site: no argument left: the Go code iterates over nothing *)
-                           if b then Ok ([], add_taint c true) else terr c
+                 | None => err c                                         (* needArg: no argument left *)
                  end) with
           | Ok (ls, c) =>
               let ls := if once && Nat.eqb (List.length ls) 0 then [VNil] else ls in
@@ -598,7 +559,7 @@ Definition dir_iter (fuel : nat) (rec : ctl -> pres) (colon at_ : bool) (ps : li
           if (c_apos c <? 0)%Z then err c else
           match (match arg_at c with
                  | Some v => (match as_list v with Some l => Ok (l, set_apos c (c_apos c + 1)) | None => err c end)
-                 | None => if b then Ok ([], add_taint c true) else terr c
+                 | None => err c
                  end) with
           | Ok (l, c) => finish (iter_loop fuel rec start n once c (with_args c2 l 0)) (fun c _ => c)
           | Err t => Err t | OutOfFuel => OutOfFuel | Unsup => Unsup
